@@ -51,3 +51,8 @@ func VerifC18_BatchReleaseFinalizer() {
 		verifrt.Assert(removed, "C18.batchrelease.finalizerRemovedOnceCompleted")
 	}
 }
+
+// VerifC18_CompletedOnlyAfterFinalizeSucceeded: the BatchRelease finalizer is dropped in phase Completed only, so the
+// phase must not become Completed while the control plane's Finalize still reports an error of any kind (plain,
+// retry, bad request) — the executor obligation of C11 run under C18 as well.
+func VerifC18_CompletedOnlyAfterFinalizeSucceeded() { VerifC11_ExecutorRound_Finalizing() }
